@@ -533,4 +533,4 @@ def _derived_from_floor_slice(f, ev):
     return 'RangeFrom' in s and 'ds_len' in s
 
 # as-built addendum
-EXPLANATION += " As built (DESIGN 9.2): As built, R1 also: the emission loop of a closing block compares with that block's own floor and with the depth at its opening (a nested block emits only its own results); the floor a meta context opens with is the current depth (known finding: nested blocks inherit). R3 also: the purge keeps dictionary order, cuts the source registry with the code (sparing live inputs, see C17), searches over pending flows start at the floor, results are compiled in place wherever a structure other than the enum builder is open, the `late` stub does not patch for good in a meta context. R4 also: late binding refuses a build-time word."
+EXPLANATION += " As built (DESIGN 9.2): As built, R1 also: the emission loop of a closing block compares with that block's own floor and with the depth at its opening (a nested block emits only its own results); the floor a meta context opens with is the current depth (known finding: nested blocks inherit). R3 also: the purge keeps dictionary order, cuts the source registry with the code (sparing live inputs, see C17), searches over pending flows start at the floor, results are compiled in place wherever a structure other than the enum builder is open, the `late` stub does not patch for good in a meta context. R4 also: late binding refuses a build-time word. R3/R4 as built: a permanent run-time patch is fine behind `input.is_empty()` too (no meta evaluation without a source being read); the refusal of build-time words may be narrowed to the native ones."
